@@ -3,4 +3,40 @@ fn main() {
     println!("cargo:rustc-env=QTY_HELPER={}/qty-macros/src/quantity_attr_helper.rs", repo);
     println!("cargo:rerun-if-env-changed=QTY_REPO");
     println!("cargo:rerun-if-changed={}/qty-macros/src/quantity_attr_helper.rs", repo);
+    // the entry point `quantity()` of qty-macros/src/lib.rs, copied textually (signature and body) under
+    // another name, so that the ORDER in which the macro calls parse_item / analyze / parse_args / codegen
+    // (and anything else it may do there) is the code of the working tree, not a transcription of it
+    let librs = format!("{}/qty-macros/src/lib.rs", repo);
+    println!("cargo:rerun-if-changed={}", librs);
+    let text = std::fs::read_to_string(&librs).expect("qty-macros/src/lib.rs");
+    let entry = match text.find("pub fn quantity(") {
+        Some(start) => {
+            let bytes = text.as_bytes();
+            let mut i = start;
+            while i < bytes.len() && bytes[i] != b'{' {
+                i += 1;
+            }
+            let mut depth = 0i32;
+            let mut end = i;
+            while end < bytes.len() {
+                match bytes[end] {
+                    b'{' => depth += 1,
+                    b'}' => {
+                        depth -= 1;
+                        if depth == 0 {
+                            break;
+                        }
+                    }
+                    _ => {}
+                }
+                end += 1;
+            }
+            text[start..=end.min(bytes.len() - 1)].replacen("pub fn quantity(", "pub fn quantity_entry(", 1)
+        }
+        None => "pub fn quantity_entry(_args: TokenStream, _item: TokenStream) -> TokenStream { \
+                 panic!(\"entry point `quantity` not found\") }"
+            .to_string(),
+    };
+    let out = std::path::Path::new(&std::env::var("OUT_DIR").unwrap()).join("entry.rs");
+    std::fs::write(out, entry).expect("write entry.rs");
 }
